@@ -875,6 +875,20 @@ fn exec_op(ctx: &mut Ctx, op: &Value, ev: &mut Map<String, Value>) {
             };
             let filt = filter_of(&op["filter"]);
             ev.insert("nodes".into(), Value::Array(pr.nodes.clone()));
+            // which key each file of this instance registers (context for names of resolved types)
+            let mut kk = Vec::new();
+            for (k, fr2) in res.iter() {
+                if let Some(f) = &fr2.ast {
+                    let kind = match f.item {
+                        ast::Item::Interface(_) => "interface",
+                        ast::Item::Parcelable(_) => "parcelable",
+                        ast::Item::Enum(_) => "enum",
+                    };
+                    kk.push(json!([idname(&ctx.scratch, k), f.get_key(), kind]));
+                }
+            }
+            kk.sort_by_key(|x| x.to_string());
+            ev.insert("kk".into(), json!(kk));
             match name {
                 "walk" => {
                     let mut out = Vec::new();
